@@ -100,4 +100,17 @@ def fixed_dotglob_inner_dot(chk):
                     chk.violation(dict(obligation='C03.fixed.dot_inside_an_alternative_does_not_lift_the_dot_directory_guard', pattern=p, fl=nm, witness=full),
                                   f'globmatch({full!r}, {p!r}, {nm}) is True: a wildcard construct matched the directory {name!r}',
                                   f"import sys; sys.path.insert(0, {REPO!r})\nfrom wcmatch import glob\ngot = glob.globmatch({full!r}, {p!r}, flags={fl | G.U})\nprint(got)\nsys.exit(1 if got else 0)\n")
+    # a third fixed family (wave 6): a written leading dot inside a group of an EARLIER segment says nothing about a later segment - `!(b)`, `*`, `@(*)`
+    # there still refuse `.` and `..` (the parser's "a dot was written" state must not survive the group it was set in)
+    later = [('@(.a|x)/!(b)', 'x/'), ('+(.a|x)/!(b)', 'x/'), ('?(.a)x/!(b)', 'x/'), ('*(.)x/!(b)', 'x/'), ('@(.a|x)/!(b)/c', 'x/'), ('@(.a|x)/@(*)', 'x/'), ('@(.a|x)y/!(b|c)', 'xy/'), ('@(.a)/!(b)', '.a/')]
+    for fl, nm in ((G.E | G.D, 'EXTGLOB|DOTGLOB'), (G.E | G.D | G.G, 'EXTGLOB|DOTGLOB|GLOBSTAR')):
+        for p, prefix in later:
+            for name in ('.', '..'):
+                full = prefix + name + ('/c' if p.endswith('/c') else '')
+                n += 1
+                chk.case(key=('dot-state-across-groups', p, nm, full))
+                if G.globmatch(full, p, flags=fl | G.U):
+                    chk.violation(dict(obligation='C03.fixed.a_dot_written_in_an_earlier_group_does_not_lift_the_guard_of_a_later_segment', pattern=p, fl=nm, witness=full),
+                                  f'globmatch({full!r}, {p!r}, {nm}) is True: a wildcard construct matched the directory {name!r}',
+                                  f"import sys; sys.path.insert(0, {REPO!r})\nfrom wcmatch import glob\ngot = glob.globmatch({full!r}, {p!r}, flags={fl | G.U})\nprint(got)\nsys.exit(1 if got else 0)\n")
     chk.bounds['c03_fixed_dotglob_inner_dot_cases'] = n
